@@ -27,6 +27,7 @@ class SymFlagSet:
 
     def __init__(self, mem):
         self.mem = dict(mem)
+        self.decided = {}        # name -> the value its original membership took on this path
 
     @staticmethod
     def fresh(prefix, names):
@@ -38,6 +39,10 @@ class SymFlagSet:
             return m
         d = Ctx.cur.decide(m)
         self.mem[k] = d
+        self.decided.setdefault(k, d)
+        p = getattr(self, "parent", None)
+        if p is not None and not isinstance(p.mem.get(k, False), bool):
+            p.mem[k] = d
         return d
 
     def __contains__(self, k):
@@ -54,7 +59,10 @@ class SymFlagSet:
         return self
 
     def __and__(self, other):
-        return SymFlagSet({k: self.mem.get(k, False) for k in other})
+        r = SymFlagSet({k: self.mem.get(k, False) for k in other})
+        r.decided = self.decided        # decisions taken through a derived set are decisions about the original memberships
+        r.parent = self
+        return r
 
     __rand__ = __and__
 
@@ -70,8 +78,15 @@ class SymFlagSet:
     def __bool__(self):
         if any(m is True for m in self.mem.values()):
             return True
-        syms = [m for m in self.mem.values() if not isinstance(m, bool)]
-        return Ctx.cur.decide(z3.Or(*syms)) if syms else False
+        syms = [(k, m) for k, m in self.mem.items() if not isinstance(m, bool)]
+        if not syms:
+            return False
+        r = Ctx.cur.decide(z3.Or(*[m for _, m in syms]))
+        if not r:
+            for k, _ in syms:
+                self.mem[k] = False
+                self.decided.setdefault(k, False)
+        return r
 
     def pop(self):
         for k in list(self.mem):
@@ -95,8 +110,9 @@ class SymFlagSet:
 class ArgsStub:
     """what callers may observe of the Args returned by args_from_input: its truthiness (= it has parameters)"""
 
-    def __init__(self, argcount, kwonly, va, vk):
+    def __init__(self, argcount, kwonly, va, vk, posonly=0):
         self.n = (argcount, kwonly, va, vk)
+        self.argcount, self.kwonly, self.va, self.vk, self.posonly = argcount, kwonly, va, vk, posonly
 
     def __bool__(self):
         a, k, va, vk = self.n
@@ -110,8 +126,13 @@ class StrConst:
     """an opaque constant that is a str"""
 
 
+class FunctionStub:
+    def __init__(self, args, docstring, type):
+        self.args, self.docstring, self.type = args, docstring, type
+
+
 def glue_ns():
-    return cached("_code_data", lambda: rewrite.load(CD, ["to_code_data", "from_code_data"], hooks={"len": plen, "isinstance": lambda x, t: True if (isinstance(x, StrConst) and t is str) else isinstance(x, t)}, tag="_code_data"))
+    return cached("_code_data", lambda: rewrite.load(CD, ["to_code_data", "from_code_data"], hooks={"len": plen, "isinstance": lambda x, t: True if (isinstance(x, StrConst) and t is str) or (isinstance(x, FunctionStub) and t is Function) else isinstance(x, t)}, tag="_code_data"))
 
 
 def _to_stubs(ctx, ns0, F0, log, cap):
@@ -136,7 +157,7 @@ def _to_stubs(ctx, ns0, F0, log, cap):
             fd.remove("VARARGS")
         if vk:
             fd.remove("VARKEYWORDS")
-        a = ArgsStub(inp.argcount, inp.kwonlyargcount, va, vk)
+        a = ArgsStub(inp.argcount, inp.kwonlyargcount, va, vk, inp.posonlyargcount)
         log.append(("args_from_input", inp, a))
         return a
     ns["args_from_input"] = args_from_input
@@ -360,3 +381,59 @@ def h_canary(ctx, cfg):
         ns["to_code_data"](code)
     except (ValueError, AssertionError, KeyError):
         ctx.prove("canary.never_raises", z3.BoolVal(False))
+
+
+@harness("glue.header_roundtrip.lemma", props=["C11", "C01"], functions=["code_data._code_data.to_code_data", "code_data._code_data.from_code_data"], configs="all", cost=10,
+         assumes=["callee contracts as in the two modular harnesses; blocks_to_bytes reproduces the variable and cell tables (operand-table lemma of C01)"],
+         notes="composition of the two modular contracts over a symbolic flag set and symbolic counts: whenever to_code_data returns, from_code_data of the captured fields passes CodeType "
+               "exactly the original flag set and the original argcount / posonlyargcount / kwonlyargcount / nlocals / first line")
+def h_header_lemma(ctx, cfg):
+    ns0 = glue_ns()
+    names = sorted(spec_defined_flags(cfg).values())
+    for free_case, cell_case in ((False, False), (True, False), (False, True)):
+        F0 = SymFlagSet.fresh("f_", names)
+        log, cap = [], {}
+        ns, lm = _to_stubs(ctx, ns0, F0, log, cap)
+        ns["Function"] = FunctionStub
+        a, k, p = (ctx.input(n, SymInt.fresh(n)) for n in ("co_argcount", "co_kwonlyargcount", "co_posonlyargcount"))
+        ctx.assume(z3.And(a.z >= 0, k.z >= 0, p.z >= 0, p.z <= a.z), "pre: WF counts")
+        if cfg.vt < (3, 8):
+            ctx.assume(p.z == 0, "pre: no positional-only parameters before 3.8")
+        first = ctx.input("co_firstlineno", SymInt.fresh("first"))
+        cells = ("cell",) if cell_case else ()
+        code = types.SimpleNamespace(co_posonlyargcount=p, co_argcount=a, co_kwonlyargcount=k, co_varnames=("v0", "v1", "v2"), co_flags="WORD", co_consts=(None,),
+                                     co_freevars=("x",) if free_case else (), co_cellvars=cells, co_code=b"\x00\x00", co_names=(), co_firstlineno=first, co_stacksize=3,
+                                     co_filename="f.py", co_name="nm")
+        ns["sys"] = types.SimpleNamespace(version_info=cfg.vt)
+        try:
+            ns["to_code_data"](code)
+        except (ValueError, AssertionError, KeyError):
+            ctx.reached("decode.raises")
+            continue
+        original = {n for n, v in F0.decided.items() if v}
+        ctx.prove("decode.every_flag_membership_was_examined_before_returning", z3.BoolVal(set(F0.decided) == set(names)), detail=repr(sorted(set(names) - set(F0.decided))))
+        log2, cap2 = [], {}
+        ns, lm2, varnames = _from_stubs(ctx, ns0, log2, cap2, cells, cap["type"] is not None)
+        ns["Function"] = Function
+        ns["blocks_to_bytes"] = lambda *x: (b"\x00\x00", lm2, (), code.co_varnames, cells, (None,))
+        ns["sys"] = types.SimpleNamespace(version_info=cfg.vt)
+        cd = types.SimpleNamespace(type=cap["type"], blocks=cap["blocks"], _additional_args=cap["_additional_args"], freevars=cap["freevars"], _additional_line=None,
+                                   future_annotations=cap["future_annotations"], _nested=cap["_nested"], first_line_number=cap["first_line_number"], stacksize=cap["stacksize"],
+                                   filename=cap["filename"], name=cap["name"])
+        if cap["type"] is not None:
+            # args_to_input's contract hands back the counts of the decoded Args and a varnames prefix of co_varnames
+            ns["args_to_input"] = lambda args, fd: (fd.__ior__({"VARARGS"} if args.va else set()), fd.__ior__({"VARKEYWORDS"} if args.vk else set()),
+                                                    types.SimpleNamespace(argcount=args.argcount, posonlyargcount=args.posonly, kwonlyargcount=args.kwonly, varnames=(), flags_data=fd))[2]
+        ns["from_code_data"](cd)
+        got = cap2["args"]
+        fields = ["argcount", "posonlyargcount", "kwonlyargcount", "nlocals", "stacksize", "flags"]
+        if cfg.vt < (3, 8):
+            fields.remove("posonlyargcount")
+        g = dict(zip(fields, got))
+        ctx.prove("lemma.co_flags_reproduced_exactly", z3.BoolVal(g["flags"] == ("WORD", frozenset(original))), detail="%r vs %r" % (g["flags"], sorted(original)))
+        ctx.prove("lemma.co_argcount_reproduced", Z(g["argcount"]) == a.z)
+        ctx.prove("lemma.co_kwonlyargcount_reproduced", Z(g["kwonlyargcount"]) == k.z)
+        if "posonlyargcount" in g:
+            ctx.prove("lemma.co_posonlyargcount_reproduced", Z(g["posonlyargcount"]) == p.z)
+        ctx.prove("lemma.co_nlocals_reproduced", z3.BoolVal(g["nlocals"] == len(code.co_varnames)))
+        ctx.prove("lemma.co_stacksize_reproduced", z3.BoolVal(g["stacksize"] == 3))
